@@ -129,6 +129,46 @@ func hasAnyPrefix(s string, ps []string) bool {
 	return false
 }
 
+// hfKindName maps an operation's kind argument to the w:type value of the reference.
+func hfKindName(k string) string {
+	switch k {
+	case "first", "even":
+		return k
+	}
+	return "default"
+}
+
+// hfPartsByKind resolves the header/footer references of the main part's section settings: "hdr:<type>" / "ftr:<type>" -> part name.
+func hfPartsByKind(p *inspect.Package) map[string]string {
+	out := map[string]string{}
+	root, err := inspect.ParseXML(p.Parts["word/document.xml"])
+	if err != nil {
+		return out
+	}
+	rels, err := p.Rels("word/_rels/document.xml.rels")
+	if err != nil {
+		return out
+	}
+	target := map[string]string{}
+	for _, r := range rels {
+		if r.Type == inspect.RelHdr || r.Type == inspect.RelFtr {
+			target[r.ID] = r.Target
+		}
+	}
+	for _, kind := range [][2]string{{"headerReference", "hdr:"}, {"footerReference", "ftr:"}} {
+		for _, ref := range root.Find(inspect.NsW, kind[0]) {
+			t := ref.Attr(inspect.NsW, "type")
+			if t == "" {
+				t = "default"
+			}
+			if tg, ok := target[ref.Attr(inspect.NsR, "id")]; ok && !strings.Contains(tg, "/") {
+				out[kind[1]+t] = "word/" + tg
+			}
+		}
+	}
+	return out
+}
+
 func mainRunTexts(root *inspect.Node) map[string]int {
 	m := map[string]int{}
 	for _, t := range root.Find(inspect.NsW, "t") {
@@ -146,6 +186,12 @@ func (c04) Exec(c *sim.Case, env *Env) []sim.Violation {
 		}
 		if !o.Skipped {
 			kinds[ds.Slot][op.K] = true
+			switch op.K {
+			case "hdr", "hdrpn", "fhdr":
+				kinds[ds.Slot]["hdr:"+hfKindName(op.Str(0))] = true
+			case "ftr", "ftrpn", "fftr":
+				kinds[ds.Slot]["ftr:"+hfKindName(op.Str(0))] = true
+			}
 		}
 	}
 	obs.onSave = func(w *world.World, ds *world.Doc, b []byte) []sim.Violation {
@@ -171,12 +217,27 @@ func (c04) Exec(c *sim.Case, env *Env) []sim.Violation {
 		regen := c04regenerated(kinds[ds.Slot])
 		bct, _ := base.ContentTypes()
 		gct, _ := got.ContentTypes()
+		// header/footer parts of the opened package that serve a kind no applied edit named (and their own relationship parts): an edit
+		// of another kind must leave them alone, also when the library's part name for the edited kind happens to be theirs
+		protectedHF := map[string]bool{}
+		for key, part := range hfPartsByKind(base) {
+			if !kinds[ds.Slot][key] {
+				protectedHF[part] = true
+				protectedHF[inspect.RelsPartFor(part)] = true
+			}
+		}
+		for key, part := range hfPartsByKind(base) { // (a part that serves an edited kind as well is not protected)
+			if kinds[ds.Slot][key] {
+				delete(protectedHF, part)
+				delete(protectedHF, inspect.RelsPartFor(part))
+			}
+		}
 		// (1) pass-through parts
 		for _, n := range base.SortedNames() {
 			if strings.HasSuffix(n, "/") {
 				continue
 			}
-			if hasAnyPrefix(n, regen) {
+			if hasAnyPrefix(n, regen) && !protectedHF[n] {
 				if _, ok := got.Parts[n]; !ok && n != "word/document.xml" {
 					add("part-lost", normPart(n), "part "+n+" of the opened package is gone")
 				}
@@ -226,7 +287,7 @@ func (c04) Exec(c *sim.Case, env *Env) []sim.Violation {
 			ftrEdit := kinds[ds.Slot]["ftr"] || kinds[ds.Slot]["ftrpn"] || kinds[ds.Slot]["fftr"]
 			for _, x := range r0 {
 				// setting a header (footer) replaces the definition of that kind, relationship included
-				if (hdrEdit && x.Type == inspect.RelHdr) || (ftrEdit && x.Type == inspect.RelFtr) {
+				if ((hdrEdit && x.Type == inspect.RelHdr) || (ftrEdit && x.Type == inspect.RelFtr)) && !protectedHF["word/"+x.Target] {
 					continue
 				}
 				y, ok := idx[x.ID+"\x00"+x.Type]
